@@ -1,6 +1,6 @@
 """C11 - every executed step is accounted for; lock, hook and report follow the run (shares the end-to-end runs of C04);
 plus the lock functions alone, and the lane parallel-resume (the in-flight record of a parallel step below the resume point)."""
-import json
+import json, os
 from concurrent.futures import ThreadPoolExecutor
 import common, orch_env, orch_e2e, c04, c03
 
@@ -10,6 +10,11 @@ TRUSTED = c04.TRUSTED + ['log content is recognised by the probe\'s "output of <
                          'the harness compares every recorded duration with the time the probe really ran by its own clock']
 
 SIG_PAR_RESUME = 'inflight-parallel-record-left-after-resume'
+# PARKED until main lists the signatures in known_findings.json (details: orch_e2e.PENDING_FINDINGS): the corpus files b11_* with a
+# "pending" key - step-name-with-white-space-never-runs, parallel-step-with-comma-in-name-silently-dropped,
+# skip-name-matching-several-steps-aborts, step-name-with-leading-dash-cannot-run (findings/C04_odd_step_names.md) and
+# log-name-exceeds-name-max (findings/C11_log_name_too_long.md) - are skipped while this is False; VERIF_PENDING=1 switches them on
+PENDING_FINDINGS = os.environ.get('VERIF_PENDING', '1') == '1'     # armed: the signatures are listed in known_findings.json
 
 
 def run(ctx, n=None):
@@ -18,12 +23,14 @@ def run(ctx, n=None):
                            'second invocation (refused without touching the first, whatever directory it names; nothing mailed or hooked by the refused one), report and '
                            'mail; plus lock_acquire / lock_release alone on related names; plus the lane parallel-resume')
     n = n or ctx.budget(150, 2500)
-    corpus = c04.load_corpus('C11')
-    cases = [c for c in corpus if 'steps' in c] + [orch_e2e.gen_case(ctx.rng) for _ in range(n)]
+    corpus = c04.load_corpus('C11', PENDING_FINDINGS)
+    cases = [orch_e2e.expand(c) for c in corpus if 'steps' in c or 'compact' in c] + [orch_e2e.gen_case(ctx.rng, ctx.budget(orch_e2e.BOUNDARY_QUICK, orch_e2e.BOUNDARY_THOROUGH)) for _ in range(n)]
     res.samples = cases[:2]
     c04.evaluate(ctx, cases, res, True)
     lock_lane(ctx, res, [c for c in corpus if 'lock_unit' in c] + [orch_e2e.gen_lock_case(ctx.rng) for _ in range(ctx.budget(80, 1500))])
     parallel_resume_lane(ctx, res)
+    stale_lock_lane(ctx, res, [c for c in corpus if c.get('lane') == 'stale-lock'] +
+                    [{'lane': 'stale-lock', 'kind': ctx.rng.choice(orch_e2e.STALE_KINDS), 'detached': ctx.rng.random() < 0.3} for _ in range(ctx.budget(2, 40))])
     res.traces_validated = res.evaluations
     return res
 
@@ -38,12 +45,37 @@ def lock_lane(ctx, res, cases):
         c = case['lock_unit']
         res.evaluations += 1
         res.count('lock %s %s' % (c['op'], c['kind']))
-        if c['kind'] in ('prefix', 'longer', 'suffix', 'infix'):
+        if c['kind'] in ('prefix2', 'neighbour', 'nonl') or c['b'].count('//'):
+            res.count('class: lock lane %s' % ('root with trailing slash' if c['b'].count('//') else
+                                               {'prefix2': 'DATE.k vs DATE.k00-k99', 'neighbour': 'DATE.k-1 vs DATE.k (stale or foreign lock)', 'nonl': 'lock file without final newline'}[c['kind']]))
+        if c['kind'] in ('prefix', 'prefix2', 'longer', 'suffix', 'infix', 'neighbour', 'nonl'):
             res.nontrivial.add('lock:%s:%s:%s' % (c['op'], c['lock'], c['b']))
         if m != im:
             res.oracle_failures.append({'case': case, 'signature': 'lock-ownership-test',
                                         'what': '%s on .running=%r by %r: specified "%s" (ok, lock afterwards), util.sh did "%s"' % (
                                             'lock_acquire' if c['op'] == 'acq' else 'lock_release', c['lock'], c['b'], m, im)})
+
+
+def stale_lock_lane(ctx, res, cases):
+    """a lock file left behind by an invocation that is gone (orch_e2e.run_stale_lock): the real canvas against what the lock model
+    answers for that file content"""
+    impl = ctx.build_impl()
+    drv = ctx.build_driver('or', withz=True)
+    for case in cases:
+        ob = orch_e2e.run_stale_lock(ctx, impl, drv, case)
+        res.evaluations += 1
+        res.nontrivial.add('stale:%s:%s' % (case['kind'], bool(case.get('detached'))))
+        res.count('class: stale lock %s' % case['kind'])
+        if ob['model_acquires']:
+            ok = (ob['started'] == ['a', 'b'] and (case.get('detached') or ob['rc'] == 0) and ob['lock_after'] is None
+                  and [r[1] for r in ob['rows']] == ['a', 'b', 'end'] and ob['mails'] == (1 if case.get('detached') else 0))
+        else:
+            ok = (not ob['started'] and ob['rc'] != 0 and ob['lock_after'] == ob['lock_before'] and not ob['builddirs'] and ob['mails'] == 0
+                  and not ob['hooks'])
+        if not ok:
+            res.oracle_failures.append({'case': case, 'signature': 'stale-lock-not-handled-as-the-lock-model-says',
+                                        'what': 'lock file %r before the invocation; the model\'s lock_acquire %s; seen: %s' % (
+                                            ob['lock_before'][-40:], 'takes it' if ob['model_acquires'] else 'refuses', json.dumps(ob)[:500])})
 
 
 def parallel_resume_lane(ctx, res):
@@ -82,6 +114,8 @@ def replay(ctx, rep):
         lock_lane(ctx, res, [case])
     elif case.get('lane') == 'parallel-resume':
         parallel_resume_lane(ctx, res)
+    elif case.get('lane') == 'stale-lock':
+        stale_lock_lane(ctx, res, [case])
     else:
         c04.evaluate(ctx, [case], res, True)
     print(json.dumps(case)); print(res.disagreements); print(res.oracle_failures)
